@@ -310,6 +310,66 @@ class SqlIndex:
         return all((not s) or s in all_sets for s in sets)
 
 
+def unary_chains_filter(term):
+    """leaf set -> outer-to-inner sequence of the unary-like operators (not, unary minus, null test) applied to exactly that leaf set"""
+    counter = [0]
+    chains = {}
+
+    def rec(t):
+        k = t[0]
+        if k in ("Identifier", "Integer", "Float", "String", "DateTime", "Date", "Duration", "GUID"):
+            counter[0] += 1
+            return frozenset(["L%d" % counter[0]])
+        if k in ("Null", "Boolean"):
+            return frozenset()
+        mark = None
+        if k == "UnaryOp":
+            mark = "NOT" if t[1][0] == "Not" else "NEG"
+            if mark == "NEG" and t[2][0] in ("Integer", "Float", "Duration"):
+                mark = None       # a sign in front of a literal is part of the literal on both sides
+        elif k == "Compare" and t[1][0] in ("Eq", "NotEq") and ("Null",) in (t[2], t[3]):
+            mark = "ISNULL" if t[1][0] == "Eq" else "ISNOTNULL"
+        slot = []
+        if mark:
+            slot.append(mark)
+            pos = (len(chains), slot)
+        if k == "List":
+            parts = [rec(e) for e in t[1][1:]]
+        elif k == "Call":
+            parts = [rec(a) for a in t[2][1:]]
+        elif k == "UnaryOp":
+            parts = [rec(t[2])]
+        else:
+            parts = [rec(t[2]), rec(t[3])]
+        s_ = frozenset().union(*parts) if parts else frozenset()
+        if mark:
+            chains.setdefault(s_, []).insert(0, mark)     # post-order insert at the front = outer first
+        return s_
+    rec(term)
+    return chains
+
+
+def unary_chains_sql(idx, tree):
+    chains = {}
+
+    def rec(n):
+        k = n[0]
+        mark = None
+        if k == "un" and n[1] in ("NOT", "-"):
+            mark = "NOT" if n[1] == "NOT" else "NEG"
+            inner = idx.strip(n[2])
+            if mark == "NEG" and inner[0] in ("num", "interval"):
+                mark = None
+        elif k == "is":
+            mark = "ISNOTNULL" if n[2] else "ISNULL"
+        if mark:
+            chains.setdefault(idx.set_of(n), []).append(mark)   # pre-order = outer first
+        for c in SP.children(n):
+            rec(c)
+    rec(tree)
+    return chains
+
+
 def check_structure(term_u, leaves, sql):
     """-> None if fine, else (class, detail)"""
     try:
@@ -346,6 +406,11 @@ def check_structure(term_u, leaves, sql):
             _, name, sets = ob
             if not idx.has_group(sets):
                 return ("call-span:" + name, "arguments of %s are not contiguous subtrees: %s" % (name, [sorted(s) for s in sets]))
+    # nesting ORDER of the unary-like operators that share a leaf set: not (x eq null)  vs  (not x) eq null
+    fc, sc = unary_chains_filter(term_u), unary_chains_sql(idx, tree)
+    for s_ in set(fc) | set(sc):
+        if s_ and fc.get(s_, []) != sc.get(s_, []):
+            return ("unary-nesting", "over %s the filter applies %s (outer to inner) but the SQL applies %s" % (sorted(s_), fc.get(s_, []), sc.get(s_, [])))
     return None
 
 
